@@ -164,6 +164,7 @@ fn main() {
             *per_shape_checked.entry(shape).or_insert(0usize) += 1;
         }
     }
+    ezpz_verif_harness::oracle::print_signature_counts(&out);
     let mut seen = std::collections::BTreeSet::new();
     for v in &out {
         if seen.insert(v.signature.clone()) {
